@@ -84,6 +84,10 @@ def correspondence(ctx, batch):
     # exact parser models
     for s in strings:
         stages.stage_strtype(batch, s)
+    # remove_by_name on the registry (types and replaces afterwards)
+    for kinds, dt in registries(rng, 19):
+        for name in ["int", "float", "bool", "IntString", "FloatString", "BooleanString", "date", "IsoTimeString", "str", "x"]:
+            stages.stage_remove_by_name(batch, kinds, dt, name)
 
 
 def eq_value(a, b):
@@ -186,8 +190,43 @@ def check_field(registry, vals):
     return None
 
 
+def check_disable_history(kinds, dt, vals, name):
+    """detect, disable a type by name on the SAME registry, detect again: the disabled type must be gone and the result
+    must equal that of a registry that never had the type"""
+    from json_to_models.generator import MetadataGenerator
+    registry = stages.make_registry(kinds, datetime=dt)
+    before = [conv.enc_ty(MetadataGenerator(registry).generate({"f": v})["f"]) for v in vals]
+    registry.remove_by_name(name)
+    after = [conv.enc_ty(MetadataGenerator(registry).generate({"f": v})["f"]) for v in vals]
+    fresh = stages.make_registry(kinds, datetime=dt)
+    fresh.remove_by_name(name)
+    want = [conv.enc_ty(MetadataGenerator(fresh).generate({"f": v})["f"]) for v in vals]
+    removed = {c for c in conv.SER_CLASSES if c == name or conv.SER_CLASSES[c].actual_type.__name__ == name}
+    for v, a, w in zip(vals, after, want):
+        if isinstance(a, list) and a[0] == "ser" and a[1] in removed:
+            return {"kind": "disabled-type-still-detected", "registry": list(kinds), "datetime": dt, "values": vals, "disabled": name,
+                    "observed": f"{v!r} is still classified as {a[1]} after remove_by_name({name!r}) (it was {before[vals.index(v)]})"}
+        if a != w:
+            return {"kind": "disable-history-dependent", "registry": list(kinds), "datetime": dt, "values": vals, "disabled": name,
+                    "observed": f"{v!r}: {a} after disabling on a used registry, {w} on a registry never used before"}
+    return None
+
+
 def falsify(ctx):
     rng = ctx.rng("fals")
+    for _ in range(ctx.n(60, 1500)):
+        kinds = tuple(rng.sample(KINDS, k=rng.randint(1, 3)))
+        dt = rng.random() < 0.2
+        vals = [rng.choice(gen.PSEUDO) for _ in range(rng.randint(1, 5))]
+        name = rng.choice(list(kinds) + ["int", "float", "bool"] + (["date", "IsoTimeString"] if dt else []))
+        try:
+            hit = check_disable_history(kinds, dt, vals, name)
+        except Exception as e:  # noqa
+            hit = {"kind": "disable-history-raises", "registry": list(kinds), "datetime": dt, "values": vals, "disabled": name,
+                   "observed": f"{type(e).__name__}: {e}"}
+        ctx.case(("disable", kinds, dt, tuple(vals), name))
+        if hit:
+            yield hit
     strings = grammar(rng, ctx.n(600, 12000))
     pool = strings[:460]
     for kinds, dt in registries(rng, ctx.n(6, 19)):
@@ -239,6 +278,8 @@ def replay(ctx, hit):
                                     datetime=any(k in DT for k in hit.get("registry", [])))
     if hit["kind"] in ("first-match", "roundtrip"):
         return check_string(registry, hit["string"])
+    if hit["kind"] in ("disabled-type-still-detected", "disable-history-dependent", "disable-history-raises"):
+        return check_disable_history(tuple(hit["registry"]), hit.get("datetime", False), hit["values"], hit["disabled"])
     if hit["kind"] == "detection-raises":
         return check_string(registry, hit["full_string"])
     if hit["kind"] == "resolve-unsound":
